@@ -236,6 +236,22 @@ theorem option_spellings (n n' v : Str) (c : Char) (o : Args.Opt) (rest : List S
     Args.lexAll (('-' :: c :: v) :: rest) = canonical :=
   Args.option_spellings n n' v c o rest hn hp hn' hp' hc hk hv hv0 hv1
 
+/-- … anywhere on the command line: behind arguments that are one token each, an occurrence of an option may be written
+in any of its spellings and the whole line is parsed to the same record (hence the same run) -/
+theorem respell_anywhere (pre rest : List Str) (n n' v : Str) (c : Char) (o : Args.Opt)
+    (hpre : Args.OneTokenEach pre)
+    (hn : Args.findOpt n = some o) (hp : Args.plainName n = true)
+    (hn' : Args.findOpt n' = some o) (hp' : Args.plainName n' = true)
+    (hc : Args.findShort c = some o) (hk : o.kind ≠ .flag)
+    (hv : Args.isValue v = true) (hv0 : v ≠ []) (hv1 : v.head? ≠ some '=') :
+    let canonical := Args.parseArgs (pre ++ ('-' :: '-' :: (n ++ '=' :: v)) :: rest)
+    Args.parseArgs (pre ++ ('-' :: '-' :: (n' ++ '=' :: v)) :: rest) = canonical ∧
+    Args.parseArgs (pre ++ ('-' :: '-' :: n') :: v :: rest) = canonical ∧
+    Args.parseArgs (pre ++ ['-', c] :: v :: rest) = canonical ∧
+    Args.parseArgs (pre ++ ('-' :: c :: '=' :: v) :: rest) = canonical ∧
+    Args.parseArgs (pre ++ ('-' :: c :: v) :: rest) = canonical :=
+  Args.respell_anywhere pre rest n n' v c o hpre hn hp hn' hp' hc hk hv hv0 hv1
+
 /-- every long name and alias of the table satisfies the side condition of `option_spellings` -/
 theorem option_names_plain : (Args.Opt.all.all fun o => o.names.all fun n => Args.plainName n.toList) = true :=
   Args.names_plain
